@@ -76,7 +76,22 @@ def main():
 
 
 def finish(out, meta):
-    json.dump(meta, open(os.path.join(out, "meta.json"), "w"), indent=1)
+    mp = os.path.join(out, "meta.json")
+    if os.path.exists(mp):
+        try:
+            old = json.load(open(mp))
+            hist = old.get("history", [])
+            if old.get("checks"):
+                hist.append({"time": old.get("time"), "checks": {p: {k: e.get(k) for k in ("rc", "kind", "what")}
+                                                                  for p, e in old["checks"].items()}})
+            meta["history"] = hist
+            for k in ("initial_verdict", "strengthening"):
+                if k in old:
+                    meta[k] = old[k]
+        except Exception:  # noqa: BLE001
+            pass
+    json.dump(meta, open(mp + ".tmp", "w"), indent=1)
+    os.replace(mp + ".tmp", mp)
     print(json.dumps({k: meta.get(k) for k in ("id", "demo_clean_rc", "patch_applies", "demo_patched_rc")}))
     for p, e in (meta.get("checks") or {}).items():
         print(" ", p, "rc", e["rc"], e.get("kind"), (e.get("what") or "")[:160], e.get("broken_obligations"))
